@@ -381,9 +381,33 @@ class Ref:
     def abstract(self, d):
         return self.ds[d]["default"] is None
 
-    def apply(self, op):
-        """returns the expected observation class: 'ok' | 'rej' | None (evaluation)"""
+    def expect(self, op):
+        """what the property's text says about a definition: 'ok' | 'rej' | 'either' (text silent)"""
         k = op[0]
+        if k in ("overload", "overload_ds"):
+            return "either" if self.ds[op[1]]["disp"][0] == "missing" else "ok"
+        if k == "implement":
+            _, ifs, als, prov, style = op
+            provided = {n for n, i, form in prov}
+            names = {}
+            for i in ifs:
+                for n, d in self.ifs[i]["members"]:
+                    names.setdefault(n, []).append(d)
+            if any(n not in names for n in provided):
+                return "rej"          # names an unknown member
+            if any(self.abstract(d) and n not in provided for n, dl in names.items() for d in dl):
+                return "rej"          # omits an abstract member
+            return "ok"
+        return "ok"
+
+    def apply(self, op, accepted=None):
+        """perform the operation on the reference's own tables (accepted: what happened to a
+        definition; None = decide by `expect`, used by the generator)"""
+        k = op[0]
+        if accepted is None:
+            accepted = self.expect(op) == "ok"
+        if not accepted:
+            return "rej"
         if k == "new":
             self.new(op[1], op[2], tuple(op[3]) if op[3] else None, op[4])
             return "ok"
@@ -392,8 +416,6 @@ class Ref:
             return "ok"
         if k in ("overload", "overload_ds"):
             d, als = op[1], op[2]
-            if self.ds[d]["disp"][0] == "missing":
-                return "rej"
             if k == "overload":
                 self.new(op[3], ["missing"], ("f", op[4]), None)
             for a in als:
@@ -429,12 +451,8 @@ class Ref:
             for i in ifs:
                 for n, d in self.ifs[i]["members"]:
                     names.setdefault(n, []).append(d)
-            if any(n not in names for n in provided):
-                return "rej"
-            if any(self.abstract(d) and n not in provided for n, dl in names.items() for d in dl):
-                return "rej"
             for n, i in provided.items():
-                for d in names[n]:
+                for d in names.get(n, []):
                     for a in als:
                         self.ds[d]["tbl"][a] = i
             return "ok"
@@ -578,6 +596,7 @@ def run_impl(L, sc):
     cands = []   # dicts: op index, desc, zone ('D19'|'D22'|None), detail
     legit = {}   # cache -> list of records (value, outcome, disp)
     stats = dict(evals=0, hits=0, fails=0, rejected=0, regs=0)
+    last_tables = None
     for idx, op in enumerate(sc["ops"]):
         k = op[0]
         before = w.raw_tables() if k == "implement" else None
@@ -624,15 +643,18 @@ def run_impl(L, sc):
                     cands.append(dict(op=idx, zone=None, got=obs,
                                       desc="served value was computed from other option values than the current ones"))
         else:
-            expect = ref.apply(op)
+            expect = ref.expect(op)
             obs = w.apply(op)
+            if expect == "either":     # outside the property's text (@overload on a dataset without dispatch):
+                expect = obs           # the reference follows the implementation; the model still compares
+            ref.apply(op, accepted=(obs == "ok"))
             if k in ("register", "overload", "overload_ds", "implement"):
                 stats["regs"] += 1
             if obs == "rej":
                 stats["rejected"] += 1
             if obs != expect:
                 cands.append(dict(op=idx, zone=None, got=obs, expected=expect,
-                                  desc="definition accepted/rejected contrary to the property (rejected iff an abstract member is omitted or an unknown one named; overload needs a dispatch)"))
+                                  desc="definition accepted/rejected contrary to the property (an implementation is rejected iff it omits an abstract member or names an unknown one)"))
             if k == "implement":
                 after = w.raw_tables()
                 if obs == "rej" and after != before:
@@ -650,7 +672,15 @@ def run_impl(L, sc):
                                     if pv(a) not in lk or w.labels.get(id(lk[pv(a)])) != (f"f{i[1]}" if i[0] == "f" else f"d{i[1]}"):
                                         cands.append(dict(op=idx, zone=None, member=n, alias=a, dataset=d,
                                                           desc="accepted implementation did not register a provided member under every alias on every interface"))
-        lines.append(obs + "|" + w.tables())
+        if k == "eval":
+            lines.append(obs)
+            now = w.raw_tables()
+            if last_tables is not None and now != last_tables:
+                cands.append(dict(op=idx, zone=None, got=obs, desc="an evaluation changed an overload table"))
+            last_tables = now
+        else:
+            lines.append(obs + "|" + w.tables())
+            last_tables = w.raw_tables()
         if k == "eval" and len(op) > 3 and op[3] is not None:
             # interface-wide consistency group: (interface id) -> all members resolve by ONE alias
             grp = op[3]
@@ -670,7 +700,7 @@ def check_scenarios(ctx, L, scs, name):
             impl.append(run_impl(L, sc))
         except Exception as e:  # harness/generator problem or an unexpected raw exception
             impl.append((["harness-exception:" + repr(e)], [dict(op=-1, zone=None, desc="unexpected exception while driving the public API: " + repr(e))], dict(evals=0, hits=0, fails=0, rejected=0, regs=0)))
-    model = ctx.coq_eval(name, REQUIRES, PRELUDE, [render_scenario(sc) for sc in scs], shard=60)
+    model = ctx.coq_eval(name, REQUIRES, PRELUDE, [render_scenario(sc) for sc in scs], shard=40)
     out = []
     for sc, (lines, cands, stats), ml in zip(scs, impl, model):
         mlines = ml.split(";")
@@ -702,9 +732,12 @@ IMPL_SHAPES = [
     dict(reads=[[10, None], [11, 3]], bad=None),
     dict(reads=[[11, 2]], bad=None),
     dict(reads=[], bad=None),
+    dict(reads=[[10, None]], bad=None),
+    dict(reads=[[10, 2], [11, 1]], bad=None),
     dict(reads=[[10, None]], bad=[10, 4]),
-    dict(reads=[[20, None]], bad=None),          # reads the dispatch key itself
-    dict(reads=[[10, 1], [20, 6]], bad=None),    # ... with a default
+    dict(reads=[[10, 1], [20, 6]], bad=None),    # reads the dispatch key itself (with a default)
+    dict(reads=[[10, None]], bad=None),
+    dict(reads=[[20, None]], bad=None),          # ... without one
     dict(reads=[[12, None]], bad=None),          # usually missing
 ]
 
@@ -793,7 +826,7 @@ class Gen:
         """a dictionary for evaluating d: dispatch key registered / unregistered / absent"""
         rng = self.rng
         x = self.ref.ds[d]
-        o = {10: rng.choice([1, 2, 3, 4]) if rng.random() < 0.9 else None,
+        o = {10: rng.choice([1, 2, 3, 3, 2, 1, 4]) if rng.random() < 0.95 else None,
              11: rng.choice([1, 2]) if rng.random() < 0.4 else None,
              12: 1 if rng.random() < 0.15 else None}
         e = x["disp"]
@@ -911,9 +944,16 @@ class Gen:
         ms = []
         kinds = ["abstract"] + [rng.choice(["abstract", "default", "value", "existing", "existing_abs"]) for _ in range(rng.randint(1, 3))]
         rng.shuffle(kinds)
+        used = set()
+        shared = [n for j in self.ref.ifs for n, _ in self.ref.ifs[j]["members"]]
         for kind in kinds:
-            n = self.next_name
-            self.next_name += 1
+            cand = [n for n in shared if n not in used]
+            if cand and rng.random() < 0.5:      # a member name another interface has too
+                n = rng.choice(cand)
+            else:
+                n = self.next_name
+                self.next_name += 1
+            used.add(n)
             if kind in ("existing", "existing_abs"):
                 d = self.fresh_ds()
                 cb = None
@@ -1011,8 +1051,10 @@ class Gen:
     def interface_history(self, n_ops):
         rng = self.rng
         self.op_interface()
-        if rng.random() < 0.4:
+        if rng.random() < 0.5:
             self.op_interface()
+        if rng.random() < 0.6:
+            self.op_implement(mode="good")
         while len(self.ops) < n_ops:
             r = rng.random()
             i = rng.choice(list(self.ref.ifs))
@@ -1038,6 +1080,29 @@ class Gen:
                 self.op_overload(b)
                 self.probe(b)
 
+    def zone22_history(self, n_ops):
+        """evaluate, then set_dispatch (+ registrations), then evaluate the same dictionaries again"""
+        rng = self.rng
+        d = self.op_new(with_dispatch=rng.random() < 0.5, abstract=False)
+        if rng.random() < 0.5 and self.ref.ds[d]["disp"][0] != "missing":
+            self.op_overload(d)
+        seen = []
+        for _ in range(rng.randint(1, 4)):
+            o = self.options(d)
+            seen.append(o)
+            self.eval_op(d, o)
+        while len(self.ops) < n_ops:
+            k = rng.choice([20, 21])
+            e = rng.choice([["keydef", k, rng.choice(VALS)], ["keydef", k, rng.choice(VALS)], self.gen_disp(k)])
+            self.emit(["set_dispatch", d, e])
+            als = [e[2]] if e[0] == "keydef" else rng.sample(VALS, 2)
+            self.emit(["overload", d, als, self.fresh_ds(), self.new_impl(simple=True), False])
+            for o in seen + [self.options(d)]:
+                if rng.random() < 0.8:
+                    self.eval_op(d, o)
+            seen.append(self.options(d))
+            self.eval_op(d, seen[-1])
+
     def scenario(self):
         return dict(impls={str(g): d for g, d in self.impls.items()}, ops=self.ops)
 
@@ -1048,6 +1113,8 @@ def gen_scenario(rng, profile):
     n = rng.randint(5, 30)
     if profile == "interface":
         g.interface_history(n)
+    elif profile == "zone22" and rng.random() < 0.6:
+        g.zone22_history(n)
     else:
         g.overload_history(n)
     sc = g.scenario()
@@ -1070,6 +1137,18 @@ def fixed_scenarios():
         ["implement", [1], [5], [[101, ["f", 2], "func"]], "single"],
         ["implement", [1], [5, 6], [[101, ["f", 2], "func"], [102, ["f", 1], "value" if False else "func"]], "list"],
         ["eval", 1, [[10, 1], [20, 5]], 1], ["eval", 2, [[10, 1], [20, 6]], 1], ["eval", 3, [[10, 1], [20, 6]], 1],
+    ]))
+    # two interfaces sharing the member name 101: one implementation class registers it on both,
+    # under every alias; a class naming a member of neither is rejected and changes nothing
+    out.append(dict(profile="fixed:multi", impls={"1": rd, "2": rd, "3": rd, "4": dict(reads=[], bad=None), "5": dict(reads=[], bad=None)}, ops=[
+        ["interface", 1, ["key", 20, "str"], [[101, "abstract", 1, None], [102, "default", 2, 1]]],
+        ["interface", 2, ["key", 21, "opt"], [[101, "abstract", 3, None], [103, "value", 4, 4]]],
+        ["implement", [1, 2], [5, 6], [[101, ["f", 2], "func"]], "implements"],
+        ["eval", 1, [[10, 1], [20, 5]], 1], ["eval", 3, [[10, 1], [21, 6]], 2], ["eval", 3, [[10, 1], [20, 5]], 2],
+        ["eval", 2, [[10, 1], [20, 6]], 1], ["eval", 4, [[21, 5]], 2],
+        ["implement", [1, 2], [2], [[101, ["f", 3], "func"], [104, ["f", 3], "func"]], "implements"],
+        ["implement", [2, 1], [2], [[101, ["f", 3], "obj"], [103, ["f", 5], "value"]], "implements"],
+        ["eval", 1, [[10, 2], [20, 2]], 1], ["eval", 3, [[10, 2], [21, 2]], 2], ["eval", 4, [[21, 2]], 2], ["eval", 4, [[21, 3]], 2],
     ]))
     # D8 (fix 3f28b1e): derivative evaluated before the base, and after it, with a callback
     out.append(dict(profile="fixed:D8", impls={"1": rd, "2": rd}, ops=[
@@ -1120,6 +1199,32 @@ def fixed_scenarios():
     return out
 
 
+def pair_scenarios():
+    """Exhaustive small scope: every dispatch form x every ordered pair of dictionaries over
+    {dispatch key absent / registered 5 / registered 6 / unregistered 3 / 4} x {K10 = 1, 2} x
+    {default reads K10 | default also reads the dispatch key}: evaluate o1, o2, o1 again."""
+    forms = [["key", 20, "str"], ["keydef", 20, 5], ["keydef", 20, 3], ["keydom", 20, None, [3, 5, 6]],
+             ["keydom", 20, 3, [5, 6]], ["dataset", 20, None, [4]], ["dataset", 20, 5, []], ["missing"],
+             ["keydom", 20, 5, [5, 6]], ["dataset", 20, 5, [4]]]
+    dicts = [[[10, x]] + ([[20, v]] if v else []) for v in (None, 5, 6, 3, 4) for x in (1, 2)]
+    defaults = [dict(reads=[[10, None]], bad=None), dict(reads=[[10, None], [20, 6]], bad=None)]
+    rd = dict(reads=[[10, None]], bad=None)
+    out = []
+    for fi, e in enumerate(forms):
+        for di, dd in enumerate(defaults):
+            for o1 in dicts:
+                for o2 in dicts:
+                    if o1 == o2:
+                        continue
+                    ops = [["new", 1, e, ["f", 1], 7 if (fi + di) % 2 else None]]
+                    if e[0] != "missing":
+                        ops += [["overload", 1, [5], 2, 2, False], ["register", 1, 6, ["f", 3]]]
+                    ops += [["eval", 1, o1, None], ["eval", 1, o2, None], ["eval", 1, o1, None]]
+                    out.append(dict(profile="pairs" if dispatch_safe(e) else "pairs19",
+                                    impls={"1": dd, "2": rd, "3": rd}, ops=ops))
+    return out
+
+
 D19_WITNESS = dict(profile="witness:D19", impls={"1": dict(reads=[[10, None]], bad=None), "2": dict(reads=[[10, None]], bad=None)}, ops=[
     ["new", 1, ["keydom", 20, 5, [5, 6]], ["f", 1], 7],
     ["overload", 1, [5], 2, 2, False],
@@ -1150,6 +1255,8 @@ def run(ctx):
     for profile, cnt in n.items():
         for _ in range(cnt):
             scs.append(gen_scenario(rng, profile))
+    pairs = pair_scenarios()
+    scs += rng.sample(pairs, 300) if ctx.quick else pairs
     res = check_scenarios(ctx, L, scs, "Cases_C07")
     mism = [r["mismatch"] for r in res if r["mismatch"]]
     violations = [v for r in res for v in r["violations"]]
